@@ -67,7 +67,47 @@ ApCmp(a, b) ==
       c == SeqCmp(x.core, y.core, NumCmp) IN
   IF c # 0 THEN c ELSE IF ApRank(x) # ApRank(y) THEN Sign(ApRank(x) - ApRank(y)) ELSE NumCmp(x.num, y.num)
 
-DocEcos == {"cran", "mattermost", "apache"}
-DocScope(eco, cs) == CASE eco = "cran" -> CranScope(cs) [] eco = "mattermost" -> MmScope(cs) [] eco = "apache" -> ApScope(cs) [] OTHER -> FALSE
-DocCmp(eco, a, b) == CASE eco = "cran" -> CranCmp(a, b) [] eco = "mattermost" -> MmCmp(a, b) [] eco = "apache" -> ApCmp(a, b) [] OTHER -> 2
+\* gentoo: the Package Manager Specification, section 3.3 (Algorithms 3.1-3.7), on the single-suffix versions go-univers
+\* accepts: the first number compares as an integer; a later number compares as an integer unless one of the two starts
+\* with 0, in which case both are compared as text after dropping their trailing zeros; with all common numbers equal the
+\* version with more numbers is later; then the letter (none lowest), the suffix (_alpha < _beta < _pre < _rc < none < _p,
+\* then its number, absent = 0) and the revision (absent = 0).  go-univers is known to differ (it pads missing numbers
+\* with zero and reads every number as an integer): this model exists to measure that drift.
+GtParse(cs) ==
+  LET t    == Trim(cs)
+      h    == LastIndexOf(t, 45)
+      body == IF h = 0 THEN t ELSE SubSeq(t, 1, h - 1)
+      revp == IF h = 0 THEN <<>> ELSE SubSeq(t, h + 1, Len(t))
+      u    == IndexOf(body, 95)
+      main == IF u = 0 THEN body ELSE SubSeq(body, 1, u - 1)
+      suf  == IF u = 0 THEN <<>> ELSE SubSeq(body, u + 1, Len(body))
+      e    == FirstNotAt(suf, 1, IsAlpha)
+      hasL == main # <<>> /\ IsAlpha(main[Len(main)])
+  IN [nums |-> SplitAt(IF hasL THEN SubSeq(main, 1, Len(main) - 1) ELSE main, 46),
+      letter |-> IF hasL THEN main[Len(main)] ELSE 0,
+      hasSuf |-> u # 0, word |-> SubSeq(suf, 1, e - 1), snum |-> SubSeq(suf, e, Len(suf)),
+      hasRev |-> h # 0, revp |-> revp]
+GtRank(x) == IF ~x.hasSuf THEN 5
+             ELSE CASE x.word = <<97, 108, 112, 104, 97>> -> 1 [] x.word = <<98, 101, 116, 97>> -> 2 [] x.word = <<112, 114, 101>> -> 3
+                    [] x.word = <<114, 99>> -> 4 [] x.word = <<112>> -> 6 [] OTHER -> 0
+GtScope(cs) == LET x == GtParse(cs) IN
+  /\ Len(x.nums) \in 1..11 /\ \A i \in 1..Len(x.nums) : x.nums[i] # <<>> /\ AllDigits(x.nums[i])
+  /\ GtRank(x) # 0 /\ AllDigits(x.snum)
+  /\ (x.hasRev => Len(x.revp) >= 2 /\ x.revp[1] = 114 /\ AllDigits(SubSeq(x.revp, 2, Len(x.revp))))
+GtStripTZ(d) == LET S == {i \in 1..Len(d) : d[i] # 48} IN IF S = {} THEN <<>> ELSE SubSeq(d, 1, MaxOf(S))
+GtNumCmp(a, b) == IF a[1] = 48 \/ b[1] = 48 THEN LexCmp(GtStripTZ(a), GtStripTZ(b)) ELSE NumCmp(a, b)
+GtCmp(a, b) ==
+  LET x == GtParse(a)  y == GtParse(b)
+      c1 == NumCmp(x.nums[1], y.nums[1])
+      c2 == SeqCmp(Tail(x.nums), Tail(y.nums), GtNumCmp)
+      rv(z) == IF z.hasRev THEN SubSeq(z.revp, 2, Len(z.revp)) ELSE <<>> IN
+  IF c1 # 0 THEN c1 ELSE IF c2 # 0 THEN c2
+  ELSE IF x.letter # y.letter THEN Sign(x.letter - y.letter)
+  ELSE IF GtRank(x) # GtRank(y) THEN Sign(GtRank(x) - GtRank(y))
+  ELSE IF NumCmp(x.snum, y.snum) # 0 THEN NumCmp(x.snum, y.snum)
+  ELSE NumCmp(rv(x), rv(y))
+
+DocEcos == {"cran", "mattermost", "apache", "gentoo"}
+DocScope(eco, cs) == CASE eco = "cran" -> CranScope(cs) [] eco = "mattermost" -> MmScope(cs) [] eco = "apache" -> ApScope(cs) [] eco = "gentoo" -> GtScope(cs) [] OTHER -> FALSE
+DocCmp(eco, a, b) == CASE eco = "cran" -> CranCmp(a, b) [] eco = "mattermost" -> MmCmp(a, b) [] eco = "apache" -> ApCmp(a, b) [] eco = "gentoo" -> GtCmp(a, b) [] OTHER -> 2
 =============================================================================
